@@ -165,6 +165,51 @@ Proof.
   - vm_compute. discriminate.
 Qed.
 
+(* the shared-cell variant.  The cell written before any draw (what compute_gamma does: measure_best_window_size on the main thread, before the
+   pool exists) leaves nothing to the schedule; a write by a worker is harmless exactly when the draws do not read the cell *)
+Theorem write_first_is_sequential (A St C : Type) (draw : C -> St -> A * St) (write : C -> C) n c s :
+  fst (interleaved A St C draw write (EWrite :: repeat EDraw n) c s) = fst (draws A St (draw (write c)) n s).
+Proof.
+  cbn [interleaved]. generalize (write c) as c'. intros c'. revert s.
+  induction n as [|n IH]; intros s; cbn [repeat interleaved draws]; [reflexivity|].
+  destruct (draw c' s) as [a s1]. specialize (IH s1).
+  destruct (interleaved A St C draw write (repeat EDraw n) c' s1) as [l r].
+  destruct (draws A St (draw c') n s1) as [l' s2]. cbn [fst] in *. rewrite IH. reflexivity.
+Qed.
+
+Theorem unread_write_is_harmless (A St C : Type) (draw : C -> St -> A * St) (write : C -> C) :
+  (forall c c' s, draw c s = draw c' s) ->
+  forall evs c s, fst (interleaved A St C draw write evs c s) = fst (interleaved A St C draw write (filter is_draw evs) c s).
+Proof.
+  intros Hig evs. induction evs as [|e evs IH]; intros c s; [reflexivity|].
+  destruct e; cbn [filter is_draw interleaved].
+  - destruct (draw c s) as [a s1]. specialize (IH c s1).
+    destruct (interleaved A St C draw write evs c s1) as [l r].
+    destruct (interleaved A St C draw write (filter is_draw evs) c s1) as [l' r']. cbn [fst] in *. rewrite IH. reflexivity.
+  - rewrite IH. clear IH. generalize (filter is_draw evs) as ds. intros ds. revert s.
+    induction ds as [|d ds IHd]; intros s; [reflexivity|].
+    destruct d; cbn [interleaved].
+    + rewrite (Hig (write c) c s). destruct (draw c s) as [a s1]. specialize (IHd s1).
+      destruct (interleaved A St C draw write ds (write c) s1) as [l r].
+      destruct (interleaved A St C draw write ds c s1) as [l' r']. cbn [fst] in *. rewrite IHd. reflexivity.
+    + (* a second write: both sides step to written cells; draws ignore the cell *)
+      clear IHd. revert s. generalize (write (write c)) as c1. generalize (write c) as c2.
+      induction ds as [|d ds IHd]; intros c2 c1 s; [reflexivity|].
+      destruct d; cbn [interleaved].
+      * rewrite (Hig c1 c2 s). destruct (draw c2 s) as [a s1]. specialize (IHd c2 c1 s1).
+        destruct (interleaved A St C draw write ds c1 s1) as [l r].
+        destruct (interleaved A St C draw write ds c2 s1) as [l' r']. cbn [fst] in *. rewrite IHd. reflexivity.
+      * apply IHd.
+Qed.
+
+(* SENSITIVITY: a job that writes the cell while samples that copy it are being drawn makes the samples depend on when the worker ran *)
+Theorem shared_write_in_worker_schedule_dependent :
+  exists evs1 evs2,
+    filter is_draw evs1 = filter is_draw evs2 /\
+    fst (interleaved nat nat nat (fun c s => (c + s, S s)) (fun _ => 7) evs1 0 0) <>
+    fst (interleaved nat nat nat (fun c s => (c + s, S s)) (fun _ => 7) evs2 0 0).
+Proof. exists [EWrite; EDraw; EDraw], [EDraw; EWrite; EDraw]. split; [reflexivity|]. vm_compute. discriminate. Qed.
+
 Print Assumptions set_slot_length.
 Print Assumptions nth_set_slot_same.
 Print Assumptions nth_set_slot_other.
@@ -174,3 +219,6 @@ Print Assumptions draws_length.
 Print Assumptions schedule_independent.
 Print Assumptions two_schedules_agree.
 Print Assumptions draws_in_worker_schedule_dependent.
+Print Assumptions write_first_is_sequential.
+Print Assumptions unread_write_is_harmless.
+Print Assumptions shared_write_in_worker_schedule_dependent.
